@@ -428,8 +428,13 @@ class Path:
             self.env[i.name] = mkptr(self.ev(i.ops[0]), off, nv)
         elif op == "icmp":
             a, b = self.ev(i.ops[0]), self.ev(i.ops[1])
-            f = fold_icmp(i.pred, a, b)
-            if f is None and i.pred in ("ne", "eq") and b[0] == "c" and b[2] == 0:
+            pred_ = i.pred
+            if a[0] in ("c", "null") and b[0] not in ("c", "null"):
+                # constant on the right (`0 == x` is `x == 0`): one form for every rule
+                a, b = b, a
+                pred_ = {"ult": "ugt", "ugt": "ult", "ule": "uge", "uge": "ule", "slt": "sgt", "sgt": "slt", "sle": "sge", "sge": "sle"}.get(pred_, pred_)
+            f = fold_icmp(pred_, a, b)
+            if f is None and pred_ in ("ne", "eq") and b[0] == "c" and b[2] == 0:
                 # (long) (x != y) != 0, as __builtin_expect and !! leave it: the truth value of a widened comparison is the comparison
                 inner = a
                 while inner[0] == "cast" and inner[1] in ("zext", "sext") and inner[2] >= 1:
@@ -437,8 +442,8 @@ class Path:
                 if inner is not a and inner[0] == "icmp":
                     NEG = {"eq": "ne", "ne": "eq", "ult": "uge", "uge": "ult", "ugt": "ule", "ule": "ugt",
                            "slt": "sge", "sge": "slt", "sgt": "sle", "sle": "sgt"}
-                    f = inner if i.pred == "ne" else ("icmp", NEG[inner[1]], inner[2], inner[3])
-            self.env[i.name] = f if f is not None else ("icmp", i.pred, a, b)
+                    f = inner if pred_ == "ne" else ("icmp", NEG[inner[1]], inner[2], inner[3])
+            self.env[i.name] = f if f is not None else ("icmp", pred_, a, b)
         elif op == "select":
             c, a, b = (self.ev(x) for x in i.ops)
             if c[0] == "c":
